@@ -532,6 +532,40 @@ def run(report, p):
             r5.check(False, f, n, f"{what} is applied to a path that contains the absolute location of the root ({d}): the outcome depends on the names of the folders the tree is stored under", construct=f"{what} on absolute path: {norm(n)[:70]}")
 
     # ---- rules shared with other properties (same mechanism, same rule, reported under every property it can break)
+    # ------------------------------------------------------------------ R13.7
+    r7 = report.rule(
+        "R13.7",
+        "the folder name that goes into manifest file names (and thereby into the chain) does not depend on how the root was spelled: it is the final component of the NORMALISED "
+        "root path - basename(normpath(root)) / basename(abspath(root)) - so that `tree/`, `tree/.`, `tree/A/..` all give `tree`",
+        1,
+    )
+    for f in p.funcs.values():
+        if not f.module.name.endswith("history"):
+            continue
+        for js in [n for n in walk_no_nested(f.node) if isinstance(n, ast.JoinedStr) and any(isinstance(v, ast.FormattedValue) and norm(v.value) == "ascmhl_file_extension" for v in n.values)]:
+            for v in js.values:
+                if not isinstance(v, ast.FormattedValue):
+                    continue
+                for o in pr.origins(v.value, f):
+                    full = pr.inline(pr.resolve(o, depth=3), depth=3)
+                    rootish = [t for t in subterms(full) if is_call(t, "get_root_path") or (t[0] == "attr" and t[2] in ("asc_mhl_path",))]
+                    if not rootish:
+                        continue
+                    r7.instance(f, v.value, f"{f.name}: {show(full)[:80]}")
+                    top = full
+                    while top[0] == "alt" and len(top[1]) == 1:
+                        top = top[1][0]
+                    def _norm_basename(t):
+                        return is_call(t, "os.path.basename") and t[2] and any(is_call(t[2][0], k) for k in ("os.path.normpath", "os.path.abspath", "os.path.realpath"))
+                    if _norm_basename(top):
+                        r7.check(True, f, v.value, "")
+                    elif (top[0] == "attr" and top[2] in ("name", "stem") and any(is_call(x, "Path") or is_call(x, "PurePath") or is_call(x, "pathlib.Path") for x in subterms(top))):
+                        r7.check(False, f, v.value, f"the folder name in manifest file names is `{show(top)[:60]}`: pathlib drops trailing separators and `.` but keeps `..`, so a root spelled `tree/A/..` is sealed as `NNNN_.._<date>.mhl` (and a different chain entry) instead of `NNNN_tree_...`", construct="folder name via pathlib .name (no normalisation of ..)")
+                    elif is_call(top, "os.path.basename"):
+                        r7.check(False, f, v.value, f"the folder name in manifest file names is `{show(top)[:60]}` of the root as spelled: a trailing separator gives an empty name, `tree/A/..` gives `..`", construct="folder name via basename without normpath")
+                    else:
+                        raise AnalysisError(f"{f.loc(v.value)}: how the folder name in the manifest file name is derived from the root path is not understood: {show(top)[:100]}")
+
     include_rules(report, p, 'c07', ['R7.2'], 'directory hashes must not depend on enumeration order: the list hash sorts')
     report.not_decided += ["byte identity of manifests at run time", "behaviour under exotic spellings of the root path (a/../b, symlinked ancestors)", "order of 'missing file' lines in the console output"]
 
